@@ -451,6 +451,11 @@ func (v *Validators) PayRewardsV5Fix(height uint64, period int64) (moreRewards *
 	}
 
 	for _, validator := range vals {
+		// a validator punished for byzantine behaviour in this block has no stake and no accumulated reward left
+		if validator.IsToDrop() && validator.GetTotalBipStake().Sign() == 0 {
+			continue
+		}
+
 		candidate := v.bus.Candidates().GetCandidate(validator.PubKey)
 
 		totalReward := big.NewInt(0).Set(validator.GetAccumReward())
